@@ -33,6 +33,23 @@ Theorem C18_source_definitions_are_the_model : forall a b l r,
 Proof. exact source_definitions_are_the_model. Qed.
 Print Assumptions C18_source_definitions_are_the_model.
 
+(* the same for the arithmetic: [plus_def] ... [round_to_scalar_def] say which
+   loop (index loop with both subscripts under Expects, range-for, inner_product,
+   insertions at the end) applies which per-element expression over
+   {element of lhs, element of rhs, scalar, constants, + - * /, abs sqrt round
+   round_to}; regenerated from fitness.tcc and utility.h on every run *)
+Theorem C18_source_arithmetic_is_the_model : forall a b f v e x,
+  src_plus a b = plus a b /\ src_minus a b = minus a b /\ src_times a b = times a b /\
+  src_div_scalar f v = Some (div_scalar f v) /\ src_mul_scalar f v = Some (mul_scalar f v) /\
+  src_abs f = Some (vabs f) /\ src_sqrt f = Some (vsqrt f) /\ src_round_to f = Some (round_to f) /\
+  src_round_to_scalar x = round_to_scalar x /\
+  src_distance a b = distance a b /\ src_combine a b = Some (combine_fit a b) /\
+  src_isfinite f = vis_finite f /\ src_isnan f = vis_nan f /\
+  src_issmall f = vissmall f /\ src_isnonnegative f = visnonnegative f /\
+  src_almost_equal a b e = valmost_equal a b e.
+Proof. exact source_arithmetic_is_the_model. Qed.
+Print Assumptions C18_source_arithmetic_is_the_model.
+
 Theorem C18_source_trichotomy : forall a b, nonan_vec a -> nonan_vec b ->
   exists l e g, src_rel OpLt a b = Some l /\ src_rel OpEq a b = Some e /\ src_rel OpGt a b = Some g /\
     ((l = true /\ e = false /\ g = false) \/ (l = false /\ e = true /\ g = false) \/
